@@ -614,6 +614,11 @@ caps!([F: Fn(SSp) -> CSp + 'a] MappedSpan<CSp, &'a [u8], F>; slice, borrow, exac
 caps!([F: Fn(SSp) -> CSp + 'a] MappedSpan<CSp, &'a str, F>; slice, exact, text_str);
 caps!([F: Fn(SSp) -> CSp + 'a] MappedSpan<CSp, Stream<SimIter<u8>>, F>;);
 caps!([F: Fn(SSp) -> CSp + 'a] MappedSpan<CSp, IoInput<SimReader>, F>;);
+// wrappers stacked on wrappers
+caps!([F: Fn(SSp) -> CSp + 'a] WithContext<CSp, MappedSpan<CSp, Stream<SimIter<u8>>, F>>;);
+caps!([F: Fn(CSp) -> CSp + 'a] MappedSpan<CSp, WithContext<CSp, &'a [u8]>, F>; slice, borrow, exact, text_u8);
+caps!([F: Fn(CSp) -> CSp + 'a] MappedSpan<CSp, WithContext<CSp, IoInput<SimReader>>, F>;);
+caps!([F: Fn((u8, SSp)) -> (u8, SSp) + 'a] WithContext<CSp, MappedInput<u8, SSp, Stream<SimIter<(u8, SSp)>>, F>>;);
 // mapped (token, span) slice: tokens by reference and slices of the underlying pairs; span_from of a
 // mapped input runs to the end-of-input span by design, which has no index re-basing -> not probed
 caps!([F: Fn(&'a (u8, SSp)) -> (&'a u8, &'a SSp) + 'a] MappedInput<u8, SSp, &'a [(u8, SSp)], F>; slice, borrow);
